@@ -1379,38 +1379,43 @@ class Ctx(object):
             return _minmax2(x, y, True)
         raise EngineError("bitwise and of two symbolic integers with overlapping bit ranges")
 
+    def _class_cond(self, ax, n):
+        if n == 0:
+            return compare0(ax, "==") if is_sym(ax) else (ax == 0)
+        lo = ax >= (1 << (n - 1))
+        hi = ax <= ((1 << n) - 1)
+        if lo is True:
+            return hi
+        if hi is True:
+            return lo
+        if lo is False or hi is False:
+            return False
+        return SymBool.formula(z3.And(lo.z(), hi.z()), lo.cv and hi.cv)
+
     def bit_length(self, x):
         """Concrete bit length of |x|: one fork per feasible length class (payload = the class)."""
-        ax = sym_abs(x)
         while True:
+            ax = sym_abs(x)
+            if isinstance(ax, SymInt):
+                ax = SymInt.mk(ax.t, ax.k)
+            if not is_sym(ax):
+                return ax.bit_length()
+            # a class already forced by the intervals costs no decision (and consumes no prefix entry)
+            n = builtins.abs(cv_of(ax)).bit_length()
+            c = self._class_cond(ax, n)
+            if c is True:
+                return n
             i = len(self.decisions)
             if i < len(self.prefix):
                 ent = self.prefix[i]
                 if not isinstance(ent, tuple):
                     raise EngineError("replay divergence: expected a bit-length class at %d" % i)
                 n = ent[0]
-            else:
-                n = builtins.abs(cv_of(x)).bit_length()
-            if n == 0:
-                c = compare0(ax, "==") if is_sym(ax) else (ax == 0)
-            else:
-                lo = (ax >= (1 << (n - 1)))
-                hi = (ax <= ((1 << n) - 1))
-                if lo is True:
-                    c = hi
-                elif hi is True:
-                    c = lo
-                elif lo is False or hi is False:
-                    c = False
-                else:
-                    c = SymBool.formula(z3.And(lo.z(), hi.z()), lo.cv and hi.cv)
-            if c is True:
-                return n
-            if c is False:
-                raise EngineError("bit-length class excluded by intervals")
+                c = self._class_cond(ax, n)
+                if c is True or c is False:
+                    raise EngineError("replayed bit-length class decided by intervals")
             if self.branch(c, payload=n):
                 return n
-            ax = sym_abs(x)
 
     # ------------------------------------------------------------------ branching
     def _flush(self):
@@ -1483,6 +1488,12 @@ class Ctx(object):
         if isinstance(x, SymBool):
             return bool(x)
         while isinstance(x, SymInt):
+            x = SymInt.mk(x.t, x.k)
+            if not isinstance(x, SymInt):
+                break
+            lo, hi = x.bounds()
+            if lo is not None and lo == hi:
+                return lo
             i = len(self.decisions)
             if i < len(self.prefix):
                 ent = self.prefix[i]
@@ -1573,6 +1584,10 @@ class Ctx(object):
             return False
         self.failed.append((label, None, "unknown", extra))
         return False
+
+    def fail(self, label, extra=None):
+        """The path itself violates the property (e.g. an unexpected exception escaped)."""
+        self.failed.append((label, self.model_inputs(), "path", extra))
 
     def prove_eq(self, a, b, label=""):
         if isinstance(a, SymBool):
